@@ -51,8 +51,12 @@ def driver(root):
         x = fi_.expand(v, at=at)
         return isinstance(x, ast.Call) and callee_name(x) == "resolve_one_step"
     un = next((s for s in ast.walk(wl) if isinstance(s, ast.Assign) and isinstance(s.targets[0], (ast.Tuple, ast.List)) and len(s.targets[0].elts) == 2 and _is_step(s.value, s)), None)
-    if un is None: raise AnalysisError("driver loop does not unpack (count, delayed) from resolve_one_step")
-    a, b = [ast.unparse(e) for e in un.targets[0].elts]
+    if un is not None: a, b = [ast.unparse(e) for e in un.targets[0].elts]
+    else:
+        # the pair kept in one variable and taken apart by index: r = ...resolve_one_step(); ... += r[0]; ... += len(r[1])
+        tmp = next((s for s in ast.walk(wl) if isinstance(s, ast.Assign) and len(s.targets) == 1 and isinstance(s.targets[0], ast.Name) and _is_step(s.value, s)), None)
+        if tmp is None: raise AnalysisError("driver loop does not take (count, delayed) from resolve_one_step")
+        a, b = "%s[0]" % tmp.targets[0].id, "%s[1]" % tmp.targets[0].id
     rc = uc = None
     for s in ast.walk(wl):
         if isinstance(s, ast.AugAssign) and isinstance(s.op, ast.Add):
